@@ -398,5 +398,355 @@ theorem seg_shape_main {Q : Pos P → Prop} (L : EqLaws Q) (pt0 : PathType) (hw0
     simp only [List.length_cons, List.length_append, List.length_nil] at this
     omega
 
+/-- the control points one segment contributes (`HoSpec.segment`), as a function of its vertices. -/
+def segEmit (pt0 : PathType) (first : Bool) (own handed : List (PathControlPoint P)) : List (PathControlPoint P) :=
+  if (segVertices first own handed).length - handed.length = 0
+  then (typeFirst (effectivePathType pt0 (segVertices first own handed)) (segVertices first own handed)).take 1
+  else emitRange (effectivePathType pt0 (segVertices first own handed))
+    ((segVertices first own handed).length - handed.length)
+    (typeFirst (effectivePathType pt0 (segVertices first own handed)) (segVertices first own handed)) 0
+    ((segVertices first own handed).length - handed.length)
+
+theorem segEmit_cons (pt0 : PathType) (first : Bool) (own handed : List (PathControlPoint P))
+    (v0 : PathControlPoint P) (ws : List (PathControlPoint P))
+    (hv : segVertices first own handed = v0 :: (ws ++ handed)) :
+    segEmit pt0 first own handed =
+      { v0 with pathType := some (effectivePathType pt0 (v0 :: (ws ++ handed))) } ::
+        emitTail (effectivePathType pt0 (v0 :: (ws ++ handed))) false v0.pos ws := by
+  unfold segEmit
+  rw [hv]
+  have hn : (v0 :: (ws ++ handed)).length - handed.length = ws.length + 1 := by
+    simp only [List.length_cons, List.length_append]; omega
+  rw [hn, if_neg (by omega)]
+  exact emitRange_head _ v0 ws handed
+
+/-- **one segment**, followed by the later segments' contribution `more`. -/
+theorem seg_shape {Q : Pos P → Prop} (L : EqLaws Q) (hQ0 : Q Pos.zero) (pt0 : PathType) (hw0 : WfType pt0) (first : Bool)
+    (own handed more : List (PathControlPoint P))
+    (hown : ∀ w ∈ own, w.pathType = none ∧ Q w.pos) (hhd : ∀ w ∈ handed, w.pathType = none ∧ Q w.pos)
+    (hlen : handed.length ≤ 1) (hne : segVertices first own handed ≠ [])
+    (hm1 : handed = [] → more = [])
+    (hm2 : ∀ v, handed = [v] → ∃ h' body', more = h' :: body' ∧ h'.pathType.isSome = true ∧ h'.pos = v.pos)
+    (hmore : ∀ (T : PathType) (a : PathControlPoint P), Q a.pos → F17Chain T a more → ChainOK T a more) :
+    ∃ h body t, segEmit pt0 first own handed ++ more = h :: body ∧ h.pathType = some t ∧ WfType t ∧
+      PShape t h.pos body ∧ (F17Chain t h body → ChainOK t h body) ∧ Q h.pos ∧
+      (∀ v0, (segVertices first own handed).head? = some v0 → h.pos = v0.pos) := by
+  have hhd' : ∀ w ∈ handed, Q w.pos := fun w hw => (hhd w hw).2
+  -- a segment with a vertex of its own
+  have main : ∀ (v0 : PathControlPoint P) (ws : List (PathControlPoint P)), Q v0.pos →
+      (∀ w ∈ ws, w.pathType = none ∧ Q w.pos) → segVertices first own handed = v0 :: (ws ++ handed) →
+      ∃ h body t, segEmit pt0 first own handed ++ more = h :: body ∧ h.pathType = some t ∧ WfType t ∧
+        PShape t h.pos body ∧ (F17Chain t h body → ChainOK t h body) ∧ Q h.pos ∧
+        (∀ v0, (segVertices first own handed).head? = some v0 → h.pos = v0.pos) := by
+    intro v0 ws hv0 hws hv
+    obtain ⟨h1, h2, h3⟩ := seg_shape_main L pt0 hw0 v0 ws handed more hv0 hws hhd' hlen hm1 hm2 hmore
+    refine ⟨{ v0 with pathType := some (effectivePathType pt0 (v0 :: (ws ++ handed))) },
+      emitTail (effectivePathType pt0 (v0 :: (ws ++ handed))) false v0.pos ws ++ more,
+      effectivePathType pt0 (v0 :: (ws ++ handed)),
+      by rw [segEmit_cons pt0 first own handed v0 ws hv]; rfl, rfl, h1, h2, h3, hv0, ?_⟩
+    intro v hv'
+    rw [hv] at hv'
+    simp only [List.head?_cons, Option.some.injEq] at hv'
+    subst hv'; rfl
+  cases first with
+  | true =>
+    exact main ⟨Pos.zero, none⟩ own hQ0 hown (by simp [segVertices])
+  | false =>
+    cases own with
+    | cons o1 own' =>
+      exact main o1 own' (hown o1 List.mem_cons_self).2 (fun w hw => hown w (List.mem_cons_of_mem _ hw))
+        (by simp [segVertices])
+    | nil =>
+      -- a later segment that is its type piece alone: the handed-over point, typed
+      cases handed with
+      | nil => exact absurd (by simp [segVertices]) hne
+      | cons v r =>
+        cases r with
+        | cons _ _ => simp at hlen
+        | nil =>
+          have hv : segVertices false ([] : List (PathControlPoint P)) [v] = [v] := by simp [segVertices]
+          have hE : segEmit pt0 false [] [v] = [{ v with pathType := some (effectivePathType pt0 [v]) }] := by
+            unfold segEmit
+            rw [hv]
+            simp [typeFirst]
+          refine ⟨{ v with pathType := some (effectivePathType pt0 [v]) }, more, effectivePathType pt0 [v],
+            by rw [hE]; rfl, rfl, wf_effective pt0 _ hw0, ?_, ?_, (hhd v (by simp)).2, ?_⟩
+          · intro hperf
+            obtain ⟨a, b, c, habs, _⟩ := effective_perfect pt0 _ hperf
+            simp at habs
+          · intro hf
+            exact hmore _ _ (hhd v (by simp)).2 hf
+          · intro v0 hv0
+            rw [hv] at hv0
+            simp only [List.head?_cons, Option.some.injEq] at hv0
+            subst hv0; rfl
+
+/-! ### the segments of a path string -/
+
+section Path
+variable {F : Type} [Scalar F] [Cvt P F]
+
+/-- how the end point handed to a segment relates to the next segment `(s2, e2)`: it is the piece after the next
+segment's type piece — that segment's first point, or (the segment being a type piece alone) nothing or the following
+type piece. -/
+def AdjOK (e1 : Option Str) (s2 : List Str) (e2 : Option Str) : Prop :=
+  (∃ q, e1 = some q ∧ s2[1]? = some q) ∨ (e1 = none ∧ s2.length ≤ 1 ∧ e2 = none) ∨
+    (∃ l, e1 = some l ∧ isLetterPiece l = true)
+
+def Linked : List (List Str × Option Str) → Prop
+  | [] => True
+  | [x] => x.2 = none
+  | x :: y :: more => AdjOK x.2 y.1 y.2 ∧ Linked (y :: more)
+
+omit [Scalar P] in
+theorem cut_head (rest : List Str) : ∀ seg : List Str, ∃ ext e more, cutSegments seg rest = (seg ++ ext, e) :: more := by
+  induction rest with
+  | nil => intro seg; exact ⟨[], none, [], by simp [cutSegments]⟩
+  | cons p rest ih =>
+    intro seg
+    rw [cutSegments]
+    split
+    · exact ⟨[], rest.head?, cutSegments [p] rest, by simp⟩
+    · obtain ⟨ext, e, more, h⟩ := ih (seg ++ [p])
+      exact ⟨p :: ext, e, more, by rw [h]; simp⟩
+
+omit [Scalar P] in
+/-- **the segments of `cutSegments` are linked.** -/
+theorem cut_linked (rest : List Str) : ∀ seg : List Str, Linked (cutSegments seg rest) := by
+  induction rest with
+  | nil => intro seg; simp [cutSegments, Linked]
+  | cons p rest ih =>
+    intro seg
+    rw [cutSegments]
+    split
+    · have hl := ih [p]
+      cases rest with
+      | nil =>
+        simp only [cutSegments, Linked, List.head?_nil]
+        exact ⟨Or.inr (Or.inl ⟨rfl, by simp, rfl⟩), trivial⟩
+      | cons q rest' =>
+        by_cases hq : isLetterPiece q = true
+        · rw [cutSegments, if_pos hq] at hl ⊢
+          exact ⟨Or.inr (Or.inr ⟨q, rfl, hq⟩), hl⟩
+        · obtain ⟨ext, e, more, h⟩ := cut_head rest' ([p] ++ [q])
+          rw [cutSegments, if_neg hq] at hl ⊢
+          rw [h] at hl ⊢
+          exact ⟨Or.inl ⟨q, rfl, by simp⟩, hl⟩
+    · exact ih _
+
+omit [Scalar P] in
+theorem allSome_cons_some {α : Type} (x : Option α) (xs : List (Option α)) (r : List α)
+    (h : allSome (x :: xs) = some r) : ∃ a r', x = some a ∧ allSome xs = some r' ∧ r = a :: r' := by
+  cases x with
+  | none => simp [allSome] at h
+  | some a =>
+    simp only [allSome, Option.map_eq_some_iff] at h
+    obtain ⟨r', h1, h2⟩ := h
+    exact ⟨a, r', rfl, h1, h2.symm⟩
+
+omit [Scalar P] in
+theorem allSome_map {α β : Type} (f : α → Option β) (l : List α) :
+    ∀ r, allSome (l.map f) = some r → (∀ w ∈ r, ∃ s ∈ l, f s = some w) ∧ (∀ q, l.head? = some q → r.head? = f q) := by
+  induction l with
+  | nil =>
+    intro r h
+    simp only [List.map_nil, allSome, Option.some.injEq] at h
+    subst h
+    refine ⟨?_, ?_⟩
+    · intro w hw; cases hw
+    · intro q hq; simp at hq
+  | cons x xs ih =>
+    intro r h
+    obtain ⟨a, r', h1, h2, h3⟩ := allSome_cons_some _ _ _ h
+    subst h3
+    obtain ⟨i1, _⟩ := ih r' h2
+    refine ⟨fun w hw => ?_, fun q hq => ?_⟩
+    · rcases List.mem_cons.mp hw with rfl | hw
+      · exact ⟨x, List.mem_cons_self, h1⟩
+      · obtain ⟨s, hs, hf⟩ := i1 w hw
+        exact ⟨s, List.mem_cons_of_mem _ hs, hf⟩
+    · simp only [List.head?_cons, Option.some.injEq] at hq
+      subst hq
+      simp [h1]
+
+omit [Cvt P F] in
+theorem point_untyped (offset : Pos P) (s : Str) (v : PathControlPoint P) (h : point F offset s = some v) :
+    v.pathType = none := by
+  unfold point at h
+  simp only [] at h
+  split at h
+  · cases h; rfl
+  · cases h
+
+/-- what `HoSpec.segment` returns, in terms of the segment's vertices. -/
+theorem segment_some (offset : Pos P) (first : Bool) (seg : List Str) (ep : Option Str) (E : List (PathControlPoint P))
+    (h : segment F offset first (seg, ep) = some E) :
+    ∃ letter pts own handed, seg = letter :: pts ∧ allSome (pts.map (point F offset)) = some own ∧
+      (match ep with
+       | none => some []
+       | some e => (point F offset e).map fun v => [v]) = some handed ∧
+      segVertices first own handed ≠ [] ∧ E = segEmit (PathType.newFromStr letter) first own handed := by
+  unfold segment at h
+  split at h
+  · cases h
+  · rename_i letter pts hseg
+    simp only at hseg
+    split at h
+    · rename_i own handed ho hh
+      simp only at h
+      split at h
+      · cases h
+      · rename_i hne
+        simp only [Option.some.injEq] at h
+        refine ⟨letter, pts, own, handed, hseg, ho, hh, ?_, ?_⟩
+        · intro e; rw [e] at hne; exact hne rfl
+        · rw [← h]; rfl
+    · cases h
+
+/-- **the contributions of the segments from one segment on**: the first control point is typed, with a well-formed
+type and the perfect-curve shape, and the chain conditions hold given `F17Chain`. -/
+theorem suffix_shape {Q : Pos P → Prop} (L : EqLaws Q) (offset : Pos P) (hQ0 : Q Pos.zero)
+    (hQpt : ∀ s v, point F offset s = some v → Q v.pos)
+    (hletter : ∀ s, isLetterPiece s = true → point F offset s = none)
+    (more : List (List Str × Option Str)) :
+    ∀ (s0 : List Str × Option Str) (first : Bool) (parts : List (List (PathControlPoint P))),
+      Linked (s0 :: more) →
+      allSome (segment F offset first s0 :: more.map (segment F offset false)) = some parts →
+      ∃ h body t, parts.flatten = h :: body ∧ h.pathType = some t ∧ WfType t ∧ PShape t h.pos body ∧
+        (F17Chain t h body → ChainOK t h body) ∧ Q h.pos ∧ (first = true → h.pos = Pos.zero) ∧
+        (first = false → ∀ q v, s0.1[1]? = some q → point F offset q = some v → h.pos = v.pos) := by
+  induction more with
+  | nil =>
+    intro s0 first parts hl hp
+    obtain ⟨seg, ep⟩ := s0
+    obtain ⟨E, r', h1, h2, h3⟩ := allSome_cons_some _ _ _ hp
+    simp only [List.map_nil, allSome, Option.some.injEq] at h2
+    subst h2; subst h3
+    have hep : ep = none := hl
+    subst hep
+    obtain ⟨letter, pts, own, handed, hseg, ho, hh, hne, hE⟩ := segment_some offset first seg none E h1
+    simp only [Option.some.injEq] at hh
+    subst hh
+    obtain ⟨m1, m2⟩ := allSome_map (point F offset) pts own ho
+    have hown : ∀ w ∈ own, w.pathType = none ∧ Q w.pos := fun w hw => by
+      obtain ⟨s, _, hs⟩ := m1 w hw
+      exact ⟨point_untyped offset s w hs, hQpt s w hs⟩
+    obtain ⟨h, body, t, e1, e2, e3, e4, e5, e6, e7⟩ := seg_shape L hQ0 (PathType.newFromStr letter) (wf_newFromStr letter)
+      first own [] [] hown (fun w hw => by cases hw) (by simp) hne (fun _ => rfl) (fun v hv => by cases hv)
+      (fun _ _ _ _ => trivial)
+    refine ⟨h, body, t, by simpa [hE] using e1, e2, e3, e4, e5, e6, ?_, ?_⟩
+    · intro hf; subst hf
+      exact e7 ⟨Pos.zero, none⟩ (by simp [segVertices])
+    · intro hf q v hq hv
+      subst hf
+      subst hseg
+      have hq' : pts.head? = some q := by rw [List.head?_eq_getElem?]; simpa using hq
+      have := m2 q hq'
+      rw [hv] at this
+      exact e7 v (by simp only [segVertices]; cases own with
+        | nil => simp at this
+        | cons o r => simp only [List.head?_cons, Option.some.injEq] at this; subst this; simp)
+  | cons s1 more ih =>
+    intro s0 first parts hl hp
+    obtain ⟨seg, ep⟩ := s0
+    obtain ⟨E, r', h1, h2, h3⟩ := allSome_cons_some _ _ _ hp
+    subst h3
+    obtain ⟨hadj, hl'⟩ := hl
+    simp only [List.map_cons] at h2
+    obtain ⟨h', body', t', f1, f2, f3, f4, f5, f6, _, f8⟩ := ih s1 false r' hl' h2
+    obtain ⟨letter, pts, own, handed, hseg, ho, hh, hne, hE⟩ := segment_some offset first seg ep E h1
+    obtain ⟨m1, m2⟩ := allSome_map (point F offset) pts own ho
+    have hown : ∀ w ∈ own, w.pathType = none ∧ Q w.pos := fun w hw => by
+      obtain ⟨s, _, hs⟩ := m1 w hw
+      exact ⟨point_untyped offset s w hs, hQpt s w hs⟩
+    -- the end point is the next segment's first point
+    have hq : ∃ q v, ep = some q ∧ s1.1[1]? = some q ∧ point F offset q = some v ∧ handed = [v] := by
+      rcases hadj with ⟨q, hq1, hq2⟩ | ⟨hq1, hq2, hq3⟩ | ⟨l, hq1, hq2⟩
+      · simp only at hq1 hq2
+        subst hq1
+        simp only [Option.map_eq_some_iff] at hh
+        obtain ⟨v, hv, hvh⟩ := hh
+        exact ⟨q, v, rfl, hq2, hv, hvh.symm⟩
+      · -- the next segment has no vertex at all
+        exfalso
+        obtain ⟨E1, r1, g1, _, _⟩ := allSome_cons_some _ _ _ h2
+        obtain ⟨seg1, ep1⟩ := s1
+        simp only at hq2 hq3
+        subst hq3
+        obtain ⟨letter1, pts1, own1, handed1, hseg1, ho1, hh1, hne1, _⟩ := segment_some offset false seg1 none E1 g1
+        subst hseg1
+        simp only [List.length_cons] at hq2
+        have hp1 : pts1 = [] := List.eq_nil_of_length_eq_zero (by omega)
+        subst hp1
+        simp only [List.map_nil, allSome, Option.some.injEq] at ho1 hh1
+        subst ho1; subst hh1
+        exact hne1 (by simp [segVertices])
+      · exfalso
+        simp only at hq1
+        subst hq1
+        simp only [hletter l hq2, Option.map_none] at hh
+        cases hh
+    obtain ⟨q, v, hq1, hq2, hq3, hq4⟩ := hq
+    subst hq4
+    have hpos : h'.pos = v.pos := f8 rfl q v hq2 hq3
+    have hhd : ∀ w ∈ [v], w.pathType = none ∧ Q w.pos := fun w hw => by
+      simp only [List.mem_singleton] at hw
+      subst hw
+      exact ⟨point_untyped offset q w hq3, hQpt q w hq3⟩
+    have hmore : ∀ (T : PathType) (a : PathControlPoint P), Q a.pos → F17Chain T a r'.flatten → ChainOK T a r'.flatten := by
+      intro T a _ hf
+      rw [f1] at hf ⊢
+      rw [ChainOK]
+      rw [F17Chain] at hf
+      simp only [f2] at hf ⊢
+      exact ⟨f3, f4, fun hc => ⟨(hf.1 hc).1, L.refl _ f6, (hf.1 hc).2⟩, f5 hf.2⟩
+    obtain ⟨h, body, t, e1, e2, e3, e4, e5, e6, e7⟩ := seg_shape L hQ0 (PathType.newFromStr letter) (wf_newFromStr letter)
+      first own [v] r'.flatten hown hhd (by simp) hne (fun hc => by cases hc)
+      (fun v' hv' => by
+        simp only [List.cons.injEq, and_true] at hv'
+        subst hv'
+        exact ⟨h', body', f1, by rw [f2]; rfl, hpos⟩) hmore
+    refine ⟨h, body, t, by simpa [hE] using e1, e2, e3, e4, e5, e6, ?_, ?_⟩
+    · intro hf; subst hf
+      exact e7 ⟨Pos.zero, none⟩ (by simp [segVertices])
+    · intro hf q' v' hq' hv'
+      subst hf
+      subst hseg
+      have hq'' : pts.head? = some q' := by rw [List.head?_eq_getElem?]; simpa using hq'
+      have := m2 q' hq''
+      rw [hv'] at this
+      exact e7 v' (by simp only [segVertices]; cases own with
+        | nil => simp at this
+        | cons o r => simp only [List.head?_cons, Option.some.injEq] at this; subst this; simp)
+
+/-- **the control points of a well-formed path string read into an empty buffer**: the first one is the origin and
+typed; every typed point has a well-formed type and the perfect-curve shape; the chain conditions hold given
+`F17Chain`. -/
+theorem path_shape {Q : Pos P → Prop} (L : EqLaws Q) (offset : Pos P) (hQ0 : Q Pos.zero)
+    (hQpt : ∀ s v, point F offset s = some v → Q v.pos)
+    (hletter : ∀ s, isLetterPiece s = true → point F offset s = none)
+    (s : Str) (cps : List (PathControlPoint P)) (h : path F [] offset s = some cps) :
+    ∃ p0 rest t0, cps = p0 :: rest ∧ p0.pos = Pos.zero ∧ p0.pathType = some t0 ∧ WfType t0 ∧ PShape t0 p0.pos rest ∧
+      (F17Chain t0 p0 rest → ChainOK t0 p0 rest) := by
+  unfold path at h
+  split at h
+  · cases h
+  · rename_i p0 rest _
+    split at h
+    · cases h
+    · have hl := cut_linked rest [p0]
+      split at h
+      · cases h
+      · rename_i s0 more hcut
+        rw [hcut] at hl
+        simp only [Option.map_eq_some_iff, List.nil_append] at h
+        obtain ⟨parts, hp, hc⟩ := h
+        subst hc
+        obtain ⟨h', body, t, e1, e2, e3, e4, e5, _, e7, _⟩ :=
+          suffix_shape (F := F) L offset hQ0 hQpt hletter more s0 true parts hl hp
+        exact ⟨h', body, t, e1, e7 rfl, e2, e3, e4, e5⟩
+
+end Path
+
 end DecodedPath
 end Rosu
